@@ -15,14 +15,14 @@ E = '\x1b'
 CODES = [0, 1, 22, 31, 39, 38, 48, 5, 2, 7, 99]
 CTX = ['', '1', '31', '38;5;7', '1;31']
 TOKENS = ['a', 'b', E + '[1m', E + '[31m', E + '[0m', E + '[m', E + '[22;34m', E + '[1;38;5;214m',
-          E + '[2J', E + '[?25h', E + '[1', E, '[']
+          E + '[2J', E + '[?25h', E + '[1', E, '[', E + '[3~', E + '[@']
 ASSUMPTIONS = ['inputs whose reading by a conforming terminal is ambiguous (38;x with x not 2/5, components > 255) are '
                'checked for text only and counted under excluded_ambiguous']
 
 
 def bounds(tier):
-    return {'codes_len': 5 if tier == 'quick' else 6, 'tokens_len': 5 if tier == 'quick' else 6,
-            'ansistr_tokens_len': 4 if tier == 'quick' else 5}
+    return {'codes_len': 5 if tier == 'quick' else 6, 'tokens_len': 4 if tier == 'quick' else 6,
+            'ansistr_tokens_len': 3 if tier == 'quick' else 5}
 
 
 def tasks(tier, seed):
